@@ -94,10 +94,16 @@ theorem drop_preserves_key {t t' : TType} {fields : List String} (h : TableType.
 theorem explode_preserves_key {t t' : TType} {n : String} (h : explode t n = some t') :
     t'.key = t.key ∧ keyType t' = keyType t := explode_key h
 
-/-- the typing rule of `TableUnion`: the implied type is the reported one and all children carry its row type and key -/
-theorem union_children_agree {unify : Bool} {ts : List TType} {t : TType} (h : unionIR unify ts = some t) :
-    unionReported unify ts = some t ∧
-      ∃ cs, unionChildren unify ts = some (t :: cs) ∧ ∀ c ∈ cs, c.row = t.row ∧ c.key = t.key := unionIR_spec h
+/-- **`TableUnion` is always well typed** (after the repair of `Table.union`, /repo e4a772c10): for every list of tables and either
+value of `unify`, the type the emitted IR implies is the type the table reports … -/
+theorem union_well_typed (unify : Bool) (ts : List TType) : unionIR unify ts = unionReported unify ts :=
+  unionIR_eq_reported unify ts
+
+/-- … and every child handed to `TableUnion` carries exactly that row type and key (no exclusion). -/
+theorem union_children_agree {unify : Bool} {ts : List TType} {t : TType} (h : unionReported unify ts = some t) :
+    ∃ cs, unionChildren unify ts = some (t :: cs) ∧ ∀ c ∈ cs, c.row = t.row ∧ c.key = t.key := by
+  rw [← union_well_typed] at h
+  exact (unionIR_spec h).2
 
 theorem join_keeps_left_key {l r t : TType} (h : TableType.join l r = some t) :
     t.key = l.key ∧ t.globals = l.globals ++ r.globals := join_key h
@@ -123,11 +129,10 @@ example : annotate range [("idx", .int64)] = none := by decide
 example : unionIR true [⟨[], [("idx", .int32), ("a", .int32)], ["idx"]⟩, ⟨[], [("idx", .int32), ("a", .int64)], ["idx"]⟩,
     ⟨[], [("idx", .int32)], ["idx"]⟩] = some ⟨[], [("idx", .int32), ("a", .int64)], ["idx"]⟩ := by decide
 
-/-- KNOWN DEFECT shape: two tables with the same value fields and key whose rows differ only in where the key field sits —
-`unify=True` passes them on unchanged, the `Table` reports the first row type, the IR is ill-typed -/
-example : unionReported true [⟨[], [("idx", .int32), ("a", .int32)], ["idx"]⟩, ⟨[], [("a", .int32), ("idx", .int32)], ["idx"]⟩]
-      = some ⟨[], [("idx", .int32), ("a", .int32)], ["idx"]⟩ ∧
-    unionIR true [⟨[], [("idx", .int32), ("a", .int32)], ["idx"]⟩, ⟨[], [("a", .int32), ("idx", .int32)], ["idx"]⟩] = none := by
+/-- regression shape of the repaired defect: two tables with the same value fields and key whose rows differ only in where the
+key field sits — with `unify=True` both are now selected to the key-first row type and the union is well typed -/
+example : unionIR true [⟨[], [("idx", .int32), ("a", .int32)], ["idx"]⟩, ⟨[], [("a", .int32), ("idx", .int32)], ["idx"]⟩]
+      = some ⟨[], [("idx", .int32), ("a", .int32)], ["idx"]⟩ := by
   decide
 
 end HailVerif.C36
